@@ -41,6 +41,7 @@ static FILE *report = NULL;
 static const char *dump_path = NULL;
 static long dump_every = 1, dump_off = 0, dump_max = 0, dumps_done = 0;
 static long n_collect = 0, n_forced = 0, n_safepoints = 0, n_checked = 0, max_nodes = 0, n_findings = 0, n_opaque_coll = 0;
+static long n_envmode = 0;
 static long tot_nodes = 0, tot_edges = 0, tot_freed = 0, tot_weak_cleared = 0;
 
 static uint64_t sm64(void) {
@@ -514,6 +515,23 @@ static void dump_graph(void) {
             } else {
                 node_edges(n, dump_edge, NULL);
             }
+            /* environment mode / fiber status for the model's envModeAfterMark */
+            if (n->kind == JANET_MEMORY_FUNCENV) {
+                JanetFuncEnv *e = (JanetFuncEnv *) n->p;
+                if (e->offset > 0 && e->as.fiber) fprintf(dumpf, " E%d", (int) janet_fiber_status(e->as.fiber));
+            } else if (n->kind == JANET_MEMORY_FIBER) {
+                JanetFiber *f = (JanetFiber *) n->p;
+                fprintf(dumpf, " S%d", (int) janet_fiber_status(f));
+                for (int32_t fr = f->frame; fr > 0;) {
+                    JanetStackFrame *sf = (JanetStackFrame *)(f->data + fr) - 1;
+                    if (sf->env) {
+                        int32_t j = node_find(sf->env);
+                        int on = sf->env->offset == fr && sf->env->as.fiber == f;
+                        if (j >= 0 && nodes[j].marked) fprintf(dumpf, " %c%ld", on ? 'F' : 'X', (long) j);
+                    }
+                    fr = sf->prevframe;
+                }
+            }
         }
         fprintf(dumpf, "\n");
     }
@@ -584,6 +602,27 @@ static void midpoint_hook(void) {
                 fprintf(report, "\n");
                 fflush(report);
             }
+        }
+    }
+    /* 3b. the mark phase may copy a closure environment off a fiber's stack (janet_env_maybe_detach) only when the
+     * fiber is finished.  For every other marked fiber each frame's environment must still be on that stack, at that
+     * frame: otherwise the frame and its closures no longer share the captured locals. */
+    for (size_t i = 0; i < nnodes; i++) {
+        Node *n = &nodes[i];
+        if (n->kind != JANET_MEMORY_FIBER || !n->marked) continue;
+        JanetFiber *f = (JanetFiber *) n->p;
+        JanetFiberStatus st = janet_fiber_status(f);
+        int finished = st == JANET_STATUS_DEAD || st == JANET_STATUS_ERROR || (st >= JANET_STATUS_USER0 && st <= JANET_STATUS_USER4);
+        if (finished) continue;
+        for (int32_t fr = f->frame; fr > 0;) {
+            JanetStackFrame *sf = (JanetStackFrame *)(f->data + fr) - 1;
+            JanetFuncEnv *e = sf->env;
+            if (e && node_find(e) >= 0 && nodes[node_find(e)].marked && !(e->offset == fr && e->as.fiber == f)) {
+                n_findings++;
+                n_envmode++;
+                rep("FINDING env-detached-from-live-frame collection=%ld fiber-status=%d env-offset=%d frame=%d\n", n_collect, (int) st, e->offset, fr);
+            }
+            fr = sf->prevframe;
         }
     }
     if (opaque) n_opaque_coll++;
